@@ -22,7 +22,7 @@ CHECKS = {
         text="The property is a finite algebraic statement about the coefficient tables: for every row, sum c_i pos_i^k = k! delta_kn "
              "for k up to the stencil size (exact rationals folded from the ast), mixed and diagonal moments of the Hessian stencils, "
              "and for every distance-to-bound scenario the row selected by the code's own offset statements stays inside the bound. "
-             "Pairing of position/coefficient tables, power of the step and stencil axis are read from the syntax tree.",
+             "Pairing of position/coefficient tables, power of the step and stencil axis are read from the syntax tree. Also: the stencil rows are looked up with the stencil axis first and the input's axes in their order for inputs of every rank (no transpose after the selection by an input-shaped index).",
         note=COMMON_NOTE + " Result shapes for arbitrary input shapes / axis selections are not decided.",
     ),
 }
@@ -62,7 +62,7 @@ CHECKS["C12"] = dict(
          "vanishes identically for a homogeneous background; f_eq' is the derivative of f_eq for both statistics; the Lorentz-boost building "
          "blocks have their defining forms; operator and source solved are those of one assembly with consistent reshapes; every factor "
          "of the Liouville and collision products occupies the axis pair that its construction (direction, basis) dictates in both modes; "
-         "the background is boosted on a deep copy.",
+         "the background is boosted on a deep copy. Also: the derivative and intertwiner matrices are those of the very basis functions used by changeBasis / evaluate (R12.7: index ranges and restricted Chebyshev basis, shared with C16).",
     note=COMMON_NOTE + " Convergence of finite differences to spectral derivatives and the conditioning of the dense solve are not decided.",
 )
 
@@ -74,7 +74,7 @@ CHECKS["C13"] = dict(
          "terms of the source, deltaF * {1, pz^2, E^2, E pz} * (dpz/drz)(dpp/drp) p_par/(4 pi^2 E) on the (pz, pp) axes with the Jacobians "
          "on their own axes; each keyword of the container receives its own weight; T30 and T33 equal, as an algebraic identity in the "
          "moments, masses and velocity, the covariant decomposition of the direct integral of p^mu p^nu deltaF boosted to the wall frame "
-         "(derived independently of the code's formula); no weight depends on deltaF; container arithmetic maps each moment to itself.",
+         "(derived independently of the code's formula); no weight depends on deltaF; container arithmetic maps each moment to itself. Also: integrate / evaluate and the other read-only Polynomial methods never modify the stored coefficients or an alias of them (R13.7, alias analysis shared with C16), so the four moments integrate the same deltaF through the same quadrature (R13.8).",
     note=COMMON_NOTE + " Exactness of the Gauss-Chebyshev-Lobatto quadrature itself is covered structurally under C16, not here.",
 )
 
@@ -86,7 +86,7 @@ CHECKS["C14"] = dict(
          "the same ordered pair; the solver's array is replaced only by the value of a successful load; the listed faults leave "
          "newFromDirectory through CollisionLoadError; the basis change is an inverse-transpose confined to the polynomial axes; the "
          "axis-label flow of the interpolation shows that the reshape only splits the point axis into (pz, pp) -- which fails for more "
-         "than one particle in the original code (fixed, F6); interpolation works on a deep copy in the Chebyshev basis and converts back.",
+         "than one particle in the original code (fixed, F6); interpolation works on a deep copy in the Chebyshev basis and converts back. Also: the buffer that collects the per-pair blocks is allocated once (before the pair loops or under a first-file-only guard).",
     note=COMMON_NOTE + " Numerical fidelity of the interpolation is not decided.",
 )
 
@@ -99,7 +99,7 @@ CHECKS["C02"] = dict(
          "relations (common positive factor); c1, c2 and vMid equal their definitions in both classes, the template's with its own "
          "equation of state (itself checked for w = T dp/dT); T+ values only reach high-T-phase functions/bounds and T- values low-T ones "
          "through all producers and consumers. Two rules fail on today's tree and are recorded as known finding F11: the convergence "
-         "flag of the 2x2 solve is never read by findMatching, and its acceptance test is an absolute threshold on O(v^2) residuals.",
+         "flag of the 2x2 solve is never read by findMatching, and its acceptance test is an absolute threshold on O(v^2) residuals. Also: the template model's closed forms are flux conservation with its own equation of state (T- from energy-flux continuity, T+ = Tn w+^(1/mu), one alpha+(v+,v-) relation, maxAl's residual is _eqWall at v- = cb; R02.7, shared with C15), and a root search entered after a sign-change test brackets between the tested points, so the exact matching is not silently replaced by the template's (R02.8).",
     note=COMMON_NOTE + " That hybr/brentq reach the root, and which approximation the template fallback returns, are not decided.",
 )
 CHECKS["C03"] = dict(
@@ -112,7 +112,7 @@ CHECKS["C03"] = dict(
          "three sites and terminal; the front-crossing function is energy-flux continuity with the plasma at rest ahead; integration "
          "starts at mu(vw, v+) from (vw, T+); the efficiency factor integrates the same ODE from the same data with integrand "
          "xi^2 v^2 gamma^2 w and prefactor 4/(vw^3 w_n alpha_n), the rarefaction part with the low-T enthalpy and opposite sign; the "
-         "template ODE agrees term-wise.",
+         "template ODE agrees term-wise. Also: side typing of the functions that enforce the Tn boundary condition (R03.7, shared with C02), sign-tested root searches bracket between the tested points (R03.8), and every branch that depends on the side of the Jouguet velocity uses the model's own vJ, so the shock wave of a hybrid is not dropped from kappa (R03.9).",
     note=COMMON_NOTE + " Accuracy of solve_ivp / simpson and the momentum-flux condition at the front (a consequence, not coded) are not decided.",
 )
 
@@ -124,7 +124,7 @@ CHECKS["C05"] = dict(
          "v-^2 = min(vw^2, cs-^2), for every equation of state; the LTE root function is exactly entropy-branch matching -> shock "
          "integration -> Tn mismatch; the sentinel table is read off the guards (1 iff mismatch positive at the top of the window or the "
          "matching failed, 0 iff negative at the bottom, else the bracketed root) with the success flag reset before and read after the "
-         "evaluation; manager and wall solver use this same routine; the template solver's own sentinels and shooting function are checked.",
+         "evaluation; manager and wall solver use this same routine; the template solver's own sentinels and shooting function are checked. Also: the re-evaluation of the v+ bracket in findMatching is entered on a sign change between the very points it brackets (R05.6), so the matching handed back at the LTE velocity is the exact one.",
     note=COMMON_NOTE + " That the mismatch keeps one sign over the whole window is not decided.",
 )
 CHECKS["C06"] = dict(
@@ -135,7 +135,7 @@ CHECKS["C06"] = dict(
          "substituting the template's closed-form vJ into its detonation branch gives zero discriminant and v- = cb; both classes switch to "
          "the detonation branch exactly at vw > vJ, as does the labelling in the wall solver; v- = min(...) rules at every site; the "
          "detonation root is bracketed on the weak side by the minimiser of the same residual; fastestDeflag / slowestDeton / vMin "
-         "bookkeeping (min of the two range-limited roots, flags per phase, window handed to the wall solver).",
+         "bookkeeping (min of the two range-limited roots, flags per phase, window handed to the wall solver). Also: the sound speeds that classify a wall are those of their own phase, frozen at that phase's own range ends (R06.7, branch rules shared with C10), and every Jouguet-side decision of Hydrodynamics uses self.vJ (R06.8).",
     note=COMMON_NOTE + " Numerical inequalities between returned speeds and temperatures are not decided.",
 )
 
@@ -148,7 +148,7 @@ CHECKS["C04"] = dict(
          "components; s1/s2 pair with T30/T33; the boundary data keep their roles through all five call levels; every exit of the point "
          "solver is classified by the provenance of the returned temperature (root / failure sentinel / other) and the failure flag is "
          "reset before and lowered inside the grid loop; end-point arrays are oriented (behind, ..., in front). The early exit that "
-         "returns the minimiser of the residual as a success is known finding F10.",
+         "returns the minimiser of the residual as a success is known finding F10. Also: the gradient entering the T33 kinetic term is the z-derivative of the very profile whose values enter V and w (R04.8, shared with C09), and the Boltzmann solver boosts a deep copy so the reported background stays in the wall frame (R04.9, shared with C12).",
     note=COMMON_NOTE + " Branch selection by |Tn - T+| < 1e-10, convergence of the bracketing loop and the far-field limits are not decided.",
 )
 CHECKS["C09"] = dict(
@@ -174,7 +174,7 @@ CHECKS["C01"] = dict(
          "returned result was labelled; RUNAWAY only under pressureMax < 0 and without a velocity; every success report in solveWall "
          "is preceded by reads of both failure flags on every CFG path from the evaluation it relies on (F9, fixed); the flags have "
          "one writer each and are reset on entry; the manager builds a fresh grid/BoltzmannSolver/EOM per call and caches nothing, and "
-         "the hydrodynamics/thermodynamics layer stores only a closed, reasoned table of attributes.",
+         "the hydrodynamics/thermodynamics layer stores only a closed, reasoned table of attributes. Also: the bound-saturation test of solveWall compares the wall parameters with exactly the four bounds handed to the action minimiser, and no success label carrying a velocity is reachable from its positive branch (R01.8).",
     note=COMMON_NOTE + " That the bracket contains a sign change of the true pressure, convergence of the pressure iteration and bit-identical "
                        "repeatability of scipy routines are not decided; the no-solution exits of findWallVelocityDetonation are outside rule R01.4.",
 )
@@ -188,7 +188,7 @@ CHECKS["C16"] = dict(
          "the basis correction and the restricted functions vanish at the dropped end points; node formulas and quadrature weights share "
          "their denominators per direction, end-point weights are halved where a Lobatto end point is kept; for every rank <= 4 and axis "
          "the matrices land on (i, i+1), the contraction removes the old axis and all other axes are untouched (the pinned test only has "
-         "rank 1, where these index tuples are empty).",
+         "rank 1, where these index tuples are empty). Also: the read-only methods of Polynomial leave self.coefficients and every alias of it untouched (R16.5), so exactness holds for every call history on one object.",
     note=COMMON_NOTE + " Exactness of Gauss-Lobatto quadrature and of barycentric differentiation are theorems about the nodes, not decided here.",
 )
 
@@ -215,7 +215,7 @@ CHECKS["C20"] = dict(
          "limits and use their own class's integrands; the thermal sum is T^4/(2 pi^2)[sum n_B Re Jb + sum n_F Re Jf] with m^2/T^2 "
          "arguments, jCW has the standard form and fermions the opposite sign. The shipped tables are linted row by row: layout, "
          "uniform increasing abscissae on [-20, 1000], finiteness, zero imaginary part for x >= 0, cubic-prediction residuals "
-         "(resolution 2e-4 on the real part), value at 0 and large-x asymptote; ini file, file names and reader agree.",
+         "(resolution 2e-4 on the real part), value at 0 and large-x asymptote; ini file, file names and reader agree. Also: beyond the tabulated range the default tables are continued by a value, evaluated directly or refused, never by spline extrapolation, and the directly evaluated integral objects are constructed with adaptive interpolation off (R20.5).",
     note=COMMON_NOTE + " Values returned by quad, table accuracy between rows and continuity in the masses are not decided; a table "
                        "corruption below 2e-4 in a smooth region is not seen.",
 )
@@ -259,7 +259,7 @@ CHECKS["C08"] = dict(
          "table of two diagnostic/tolerance sites; no constant index is applied along the field axis except the gauge choice offsets[1:] "
          "and its inverse; reductions over fields use the field axis and profile concatenations the point axis; per-field scales are "
          "length-checked; the tanh ansatz is proved equivariant under translation and reflection of the vevs, the kinetic term depends on "
-         "them only through vevHighT - vevLowT, and the grid envelope uses max/min over all fields without any vev.",
+         "them only through vevHighT - vevLowT, and the grid envelope uses max/min over all fields without any vev. Also: reflection parity (the sum over fields of a quantity that is odd under the reflection of one field is flagged; products of two such quantities are even), and the width / offset bounds reach the parameters of the same name (R08.5).",
     note=COMMON_NOTE + " Equality of results between relabelled runs is not decided; model-supplied callbacks (potential, masses) are outside the package.",
 )
 
